@@ -1705,12 +1705,76 @@ def grid_method(interp, g: Grid, name, args, kwargs, node):
         return CondV("opaque", name, g)
     if name == "reshape":
         sh = _shape_arg(args[0]) if len(args) == 1 else _shape_arg(TupleV(args))
+        r = grid_reshape(g, sh) if sh else None
+        if r is not None:
+            return r
         return Term("reshape", [g, TupleV([Num(x) for x in sh]) if sh else Top("shape")])
     if name in ("argsort", "argmin", "argmax", "dot", "transpose", "round", "nonzero", "cumsum", "item", "to_numpy"):
         return Term(name, [g] + list(args), kwargs)
     if name == "toarray":
         return g
     return None
+
+
+def grid_reshape(g: Grid, shape) -> Optional[Grid]:
+    """row-major reshape of a Grid: the axes (major -> minor over all dimensions) are regrouped so that each new dimension is a run of
+    consecutive axes whose extents multiply to the requested length; one -1 is inferred; None when the regrouping would split an axis"""
+    axes = [a for dmn in g.dims for a in dmn]
+    total = Poly.const(1)
+    for _, e in axes:
+        total = total * e
+    shape = list(shape)
+    neg = [k for k, x in enumerate(shape) if x.is_const() and x.as_const() == -1]
+    if len(neg) > 1:
+        return None
+    if neg:
+        known = Poly.const(1)
+        for k, x in enumerate(shape):
+            if k != neg[0]:
+                known = known * x
+        # total / known must be a product of a run of axes: found by the greedy regrouping below, so just mark it
+        shape[neg[0]] = None
+    dims = []
+    pos = 0
+    for k, want in enumerate(shape):
+        run = []
+        prod = Poly.const(1)
+        if want is None:
+            # consume axes until what remains matches the product of the remaining requested extents
+            rest = Poly.const(1)
+            for x in shape[k + 1:]:
+                rest = rest * x
+            while pos < len(axes):
+                tail = Poly.const(1)
+                for _, e in axes[pos:]:
+                    tail = tail * e
+                if tail == rest:
+                    break
+                run.append(axes[pos])
+                pos += 1
+            dims.append(run if run else None)
+            continue
+        if want == Poly.const(1):
+            dims.append(None)           # a new axis of length 1
+            continue
+        while pos < len(axes) and prod != want:
+            run.append(axes[pos])
+            prod = prod * axes[pos][1]
+            pos += 1
+        if prod != want:
+            return None
+        dims.append(run)
+    if pos != len(axes):
+        # trailing unit axes of the source are fine, anything else is a mismatch
+        if any(e != Poly.const(1) for _, e in axes[pos:]):
+            return None
+    out = []
+    for d in dims:
+        if d is None:
+            out.append([(("idx", f"unit#{id(g)}_{len(out)}"), Poly.const(1))])
+        else:
+            out.append(d)
+    return Grid(out, g.elem)
 
 
 def sparse_shape(interp, o, depth=0):
